@@ -76,7 +76,7 @@ def _enclosing_try(func_node, target):
 
 
 def check_send_data(ctx, cls, func):
-    fn = func.node
+    fn = normal.normalised(ctx, func, aliases=False, comps=False, ifexp=False)  # loop shapes (while True / do-while flag) in one form
     q = func.qualname
     ctx.touch(func)
     sends = [c for c in calls_in(fn) if _is_socket_send(c)]
